@@ -16,7 +16,10 @@ RULE = ("pwl_calibration_fn: units 1-3, 2-6 keypoints, batch 1-4, monotonicity n
         "fixed zero-length-piece and absorbed-gap witnesses D-NaN / NaN->1. Every case "
         "also probes the implementation on a 15-point grid (bounds, pairwise monotonicity, clamps, cyclic ends, "
         "missing). cdf_fn / tfl.layers.CDF: activations relu6/sigmoid, reductions mean/geometric_mean/none, "
-        "sparsity 1-3, input_dim and units multiples of it, 1-4 keypoints, scaling none / every broadcast form / "
+        "sparsity 1-3, input_dim and units multiples of it, 1-4 keypoints, ~10% of the cdf_fn calls invalid (unknown "
+        "activation / reduction, units or input_dim not divisible by sparsity_factor, location_parameters of the wrong "
+        "input_dim / units size, non-broadcastable scaling_parameters: ValueError demanded and - except the last - "
+        "compared with the model's None; one of each kind in every run), scaling none / every broadcast form / "
         "exp-transform / fixed / learned_shared / learned_per_input (NonNeg applied), batches that are chains ordered "
         "in one coordinate at a time. Non-trivial = accepted call; distinct = distinct desc.")
 TRUSTED = ["model: Model/CondPWL.v, Model/CDF.v (hand-written from conditional_pwl_calibration.py, conditional_cdf.py, "
@@ -46,7 +49,22 @@ LIMITS = ["a zero-length piece is the left-continuous step 1 if x > keypoint els
           "empty reductions (0 keypoints, 0 inputs) are 0 in the model and NaN in TensorFlow; not generated",
           "documented keypoint_output_parameters forms (batch, size) and (batch, 1, size) are rejected when units > 1 "
           "(the tile branch for them is dead code); C15_param_sizes is stated for the accepted forms and "
-          "C15_param_forms_refuted records the rejected one"]
+          "C15_param_forms_refuted records the rejected one",
+          "cdf_fn with scaling_parameters that cannot be broadcast to location_parameters (an axis neither 1 nor of the "
+          "full size, or a scaling batch axis larger than the location batch axis) is rejected by the code (ValueError "
+          "from the tf.broadcast_to probe in _verify_cdf_params) but Model/CDF.v verify_cdf has no such clause (bsel reads "
+          "missing entries as 0 and returns Some): these calls are generated as outcome-only cases (ValueError "
+          "demanded, no Coq term); the clause was not added to the model because cdf_fn's body is unfolded by "
+          "Proofs/CDF.v and Proofs/Representations.v. The other rejected cdf_fn calls (unknown activation / reduction "
+          "string, units or input_dim not divisible by sparsity_factor, location_parameters axis 1 != input_dim or "
+          "axis 3 != units // sparsity_factor) are compared with the model's None; location_parameters of rank != 4 "
+          "cannot be written as a model term and are not generated",
+          "pwl_calibration_fn with units=1 and a rank-3 keypoint_input_parameters whose middle dimension is neither 1 "
+          "nor units (e.g. shape (batch, 3, K-2)): the code accepts this undocumented form and returns an output of "
+          "width 3, the model returns None; not generated",
+          "tfl.layers.CDF built on input_dim 1 and then called with a wider input (width 3): the code broadcasts the "
+          "input against the (1, 1, keypoints, units) kernel and returns a value, the model's cdf_layer returns None "
+          "(it accepts width == built input_dim or width 1 only); not generated"]
 
 EPS32 = 2.0 ** -23
 EPS64 = 2.0 ** -52
@@ -225,7 +243,11 @@ def chain(rng, B, D):
   return rows
 
 
-def gen_cdf(rng, kind):
+# rejected cdf_fn calls (ValueError from _verify_cdf_params expected, model: None); 'scal_bcast' has no model side
+CDF_BAD = ["act", "red", "units_sf", "dim_sf", "loc_dim", "loc_uf", "scal_bcast"]
+
+
+def gen_cdf(rng, kind, bad=None):
   act = rng.choice(["relu6", "relu6", "sigmoid"])
   red = rng.choice(["mean", "geometric_mean", "none"])
   sf = rng.choice([1, 1, 1, 2, 3])
@@ -234,6 +256,16 @@ def gen_cdf(rng, kind):
   if sf == 1:
     D = rng.choice([1, 2, 3])
     units = rng.choice([1, 2, 3])
+  if kind == "cdf_fn" and bad is None and rng.random() < 0.1:
+    bad = rng.choice(CDF_BAD)
+  if bad == "act":
+    act = rng.choice(["tanh", "relu", "Sigmoid", "RELU6", ""])
+  elif bad == "red":
+    red = rng.choice(["sum", "max", "Mean", "geometric", ""])
+  elif bad in ("units_sf", "dim_sf"):
+    sf = rng.choice([2, 3])
+    good, odd = sf * rng.choice([1, 2]), sf * rng.choice([1, 2]) + rng.randint(1, sf - 1)
+    units, D = (odd, good) if bad == "units_sf" else (good, odd)
   F = rng.randint(1, 4)
   B = rng.randint(2, 4)
   uf = units // sf
@@ -247,22 +279,31 @@ def gen_cdf(rng, kind):
   xs = chain(rng, B, D)
   d = dict(kind=kind, act=act, red=red, sf=sf, units=units, D=D, F=F, B=B, pclass=pclass, xs=xs)
   if kind == "cdf_fn":
+    d["bad"] = bad
     d["dtype"] = rng.choice(["f32", "f64"])
     lb = rng.choice([1, B, B])
     shared = lb == 1 or rng.random() < 0.6
-    one = [[[pv() for _ in range(uf)] for _ in range(F)] for _ in range(D)]
+    # location_parameters axes 1 / 3 of the wrong size for 'loc_dim' / 'loc_uf'
+    Dl = D + (rng.choice([1, -1] if D > 1 else [1]) if bad == "loc_dim" else 0)
+    ul = uf + (rng.choice([1, -1] if uf > 1 else [1]) if bad == "loc_uf" else 0)
+    one = [[[pv() for _ in range(ul)] for _ in range(F)] for _ in range(Dl)]
     if shared:
       loc = [one for _ in range(lb)]
     else:
-      loc = [[[[pv() for _ in range(uf)] for _ in range(F)] for _ in range(D)] for _ in range(lb)]
+      loc = [[[[pv() for _ in range(ul)] for _ in range(F)] for _ in range(Dl)] for _ in range(lb)]
     d["loc"] = loc
     d["shared"] = shared
     smode = rng.choice(["none", "nonneg", "nonneg", "exp", "neg"])
+    if bad == "scal_bcast" and smode == "none":
+      smode = "nonneg"
     d["smode"] = smode
     d["expm"] = None
     d["scal"] = None
     if smode != "none":
       sh = (rng.choice([1, lb]), D, rng.choice([1, F]), rng.choice([1, uf]))
+      if bad == "scal_bcast":   # one axis neither 1 nor the size of location_parameters' axis
+        ax = rng.choice([1, 2, 3])
+        sh = tuple((Dl, F, ul)[i - 1] + 1 if i == ax else n for i, n in enumerate(sh))
       def sv():
         if smode == "nonneg":
           return rng.choice([0.0, 0.5, 1.0, 2.0, 0.25, 4.0])
@@ -305,6 +346,8 @@ def gen_descs(ctx):
     out.append(gen_pwl(rng, "moderate", bad=kind))
   for i in range(ctx.n(60, 1200)):
     out.append(gen_cdf(rng, "cdf_fn"))
+  for bad in CDF_BAD:
+    out.append(gen_cdf(rng, "cdf_fn", bad=bad))
   for i in range(ctx.n(60, 1200)):
     out.append(gen_cdf(rng, "cdf_layer"))
   return out
@@ -626,6 +669,14 @@ ACT = {"relu6": "Relu6", "sigmoid": "Sigmoid"}
 RED = {"mean": "RMean", "geometric_mean": "RGeo", "none": "RNone"}
 
 
+def coq_act(a):
+  return ACT.get(a, "ActOther")
+
+
+def coq_red(r):
+  return RED.get(r, "RedOther")
+
+
 def cdf_tables(tf, d, z, cells, eps, nterms_div, expkeys):
   """sigmoid table on the pre-activations z, exp table for the exp-transform, log/exp tables for the
   geometric mean (cells = implementation output with reduction='none')."""
@@ -688,17 +739,52 @@ def eval_cdf_fn(tf, tfl, d):
             scaling_exp_transform_multiplier=d["expm"])
   fail = None
   out = None
+  exc = None
+  bad = d.get("bad")
   try:
     args = (tf.constant(xs), tf.constant(loc), None if scal is None else tf.constant(scal))
     res = fn(*args, reduction=d["red"], return_derived_parameters=True, **kw)
     out = np.array(res[0].numpy(), dtype=np.float64)
     dscal = np.array(res[2].numpy(), dtype=np.float64)
     cells = np.array(fn(*args, reduction="none", **kw).numpy(), dtype=np.float64) if d["red"] == "geometric_mean" else None
+  except ValueError as e:
+    exc = "ValueError"
+    if not bad:
+      fail = "cdf_fn raised ValueError on a documented call: %s" % str(e)[-300:]
   except Exception as e:  # pylint: disable=broad-except
-    fail = "cdf_fn raised %s on a documented call: %s" % (type(e).__name__, str(e)[-300:])
-  klass = "cdffn_%s_%s_sf%d_%s_%s" % (d["act"], d["red"], d["sf"], d["smode"], d["pclass"])
+    exc = type(e).__name__
+    fail = "cdf_fn raised %s%s: %s" % (exc, "" if bad else " on a documented call", str(e)[-300:])
+  if bad and exc is None:
+    fail = "cdf_fn accepted an invalid call (%s)" % bad
+  # the validation itself (private helper, compared when it exists): a later shape error of TensorFlow must not stand
+  # in for a missing check
+  verify_fn = getattr(tfl.conditional_cdf, "_verify_cdf_params", None)
+  if verify_fn is not None and fail is None:
+    verify_raised = None
+    try:
+      verify_fn(inputs=tf.constant(xs), location_parameters=tf.constant(loc),
+                scaling_parameters=None if scal is None else tf.constant(scal), units=d["units"], activation=d["act"],
+                reduction=d["red"], sparsity_factor=d["sf"])
+      verify_raised = False
+    except ValueError:
+      verify_raised = True
+    except Exception:  # pylint: disable=broad-except
+      verify_raised = None   # signature changed: this extra comparison is silent
+    if verify_raised is not None and verify_raised != bool(bad):
+      fail = "_verify_cdf_params %s a call that is %s (%s)" % (
+          "rejects" if verify_raised else "accepts", "invalid" if bad else "documented", bad or "valid")
+  klass = "cdffn_%s_%s_sf%d_%s_%s" % (d["act"] if d["act"] in ACT else "badact", d["red"] if d["red"] in RED else "badred",
+                                      d["sf"], d["smode"], d["pclass"])
+  if bad:
+    klass = "cdffn_rejected_%s%s" % (bad, "" if exc == "ValueError" else "_NOT_REJECTED")
   coq = None
-  if fail is None:
+  if exc == "ValueError" and bad and bad != "scal_bcast":
+    # the model's verify_cdf decides None on the same call (non-broadcastable scaling_parameters is not modelled: LIMITS)
+    coq = "CCdfFn %s %s %s %s %s %s %s %s %s %s %s %s None" % (
+        coq_act(d["act"]), coq_red(d["red"]), cnat(d["units"]), cnat(d["sf"]), copt(d["expm"]), cqm(d["xs"]), c4(d["loc"]),
+        "None" if d["scal"] is None else "(Some %s)" % c4(d["scal"]),
+        ctbl([]), ctbl([]), ctbl([]), cq(1e-9))
+  if fail is None and exc is None:
     B, D, U, sf = d["B"], d["D"], d["units"], d["sf"]
     want = (B, D // sf, U) if d["red"] == "none" else (B, U)
     if out.shape != want:
@@ -730,8 +816,8 @@ def eval_cdf_fn(tf, tfl, d):
           ACT[d["act"]], RED[d["red"]], cnat(U), cnat(sf), copt(d["expm"]), cqm(d["xs"]), c4(d["loc"]),
           "None" if d["scal"] is None else "(Some %s)" % c4(d["scal"]),
           ctbl(sgt), ctbl(ext), ctbl(lgt), cq(tol), c3(out3.tolist()))
-  return Case(d, coq=coq, pred_fail=fail, nontrivial=True, klass=klass,
-              info={"impl_output": None if out is None else out.tolist()})
+  return Case(d, coq=coq, pred_fail=fail, nontrivial=exc is None, klass=klass,
+              info={"impl_output": None if out is None else out.tolist(), "impl_exception": exc})
 
 
 def eval_cdf_layer(tf, tfl, d):
